@@ -19,6 +19,14 @@ macro_rules! opaque {
     )* } }
 }
 opaque!(Attach, Flow, Transfer, Disposition, Detach, Begin, Payload, AmqpError, SessCtlRx, LinkFlow, TransactionId, InputHandle, ChanSendError, LinkRelayS, OutputHandle, AllocLinkError, ConnectionError, AllocTxnIdError, Accepted, TransactionError);
+// bytes::Bytes as far as these functions may look at it: its length (R11)
+impl Payload {
+    pub uninterp spec fn spec_len(&self) -> nat;
+    #[verifier::external_body]
+    pub fn len(&self) -> (r: usize) ensures r == self.spec_len() { unimplemented!() }
+    #[verifier::external_body]
+    pub fn is_empty(&self) -> (r: bool) ensures r == (self.spec_len() == 0) { unimplemented!() }
+}
 /// oneshot::Sender<T>: the answer either reaches the asker or comes back (the asker is gone)
 pub struct OneshotTx<T> { pub g: Ghost<Option<T>> }
 impl<T> OneshotTx<T> {
